@@ -146,7 +146,8 @@ def main() -> int:
                     print(f"  spec: {line[:200]} -> {got[:200]} (expected {exp[:200]}) {'ok' if okj else 'FALSE'}")
                     bad += 0 if okj else 1
             if kind.model and ctx.driver_ok:
-                m = C.run_exe("modeldriver", [kind.model(case["args"])])[0]
+                ml = kind.model(case["args"])
+                m = kind.assemble(case["args"], C.run_exe("modeldriver", ml)) if isinstance(ml, list) else C.run_exe("modeldriver", [ml])[0]
                 cmp = kind.compare or (lambda x, y: x == y)
                 print(f"  model: {m[:300]} {'==' if cmp(m, out) else '!='} impl")
         if bad or not rp.get("cases"):
